@@ -2494,6 +2494,10 @@ class _Project:
                 self.update(page_id, self.buffer_texts.get(page_id))
 
     def update_asset(self, fileid: FileId) -> None:
+        if fileid.name == "facets.toml":
+            # Read by the postprocessor itself rather than while parsing any page
+            self.pages.invalidate()
+
         # Rebuild any pages depending on this asset
         if fileid not in self.asset_dg:
             return
